@@ -165,11 +165,15 @@ package ocsp
 // (getSignatureAlgorithmFromOID) uses to map the OID back - when an algorithm is requested;
 // the hash is a real one (MD2, which has no implementation, is refused).
 //@ global forall(i, 0, len(signatureAlgorithmDetails), 0 <= signatureAlgorithmDetails[i].hash && signatureAlgorithmDetails[i].hash < 20)
+// rows 3, 9, 10, 11 of the table (the default choices; RFC 4055 / RFC 5758: sha256WithRSAEncryption,
+// ecdsa-with-SHA256 / 384 / 512): the identifier variable and the hash of each row
+//@ global len(signatureAlgorithmDetails) == 12 && same(signatureAlgorithmDetails[3].oid, oidSignatureSHA256WithRSA) && signatureAlgorithmDetails[3].hash == crypto.SHA256 && same(signatureAlgorithmDetails[9].oid, oidSignatureECDSAWithSHA256) && signatureAlgorithmDetails[9].hash == crypto.SHA256 && same(signatureAlgorithmDetails[10].oid, oidSignatureECDSAWithSHA384) && signatureAlgorithmDetails[10].hash == crypto.SHA384 && same(signatureAlgorithmDetails[11].oid, oidSignatureECDSAWithSHA512) && signatureAlgorithmDetails[11].hash == crypto.SHA512
 //@ func signingParamsForPublicKey
 //@   requires typeis(pub, *ecdsa.PublicKey) ==> unboxed(pub, *ecdsa.PublicKey) != nil
 //@   ensures [hash] err == nil ==> 1 <= hashFunc && hashFunc < 20
 //@   ensures [row] err == nil && requestedSigAlgo != 0 ==> exists(i, 0, len(signatureAlgorithmDetails), signatureAlgorithmDetails[i].algo == requestedSigAlgo && signatureAlgorithmDetails[i].hash == hashFunc && same(sigAlgo.Algorithm, signatureAlgorithmDetails[i].oid))
 //@   ensures [default] err == nil && requestedSigAlgo == 0 ==> hashFunc == crypto.SHA256 || hashFunc == crypto.SHA384 || hashFunc == crypto.SHA512
+//@   ensures [defaultrow] err == nil && requestedSigAlgo == 0 ==> exists(i, 0, len(signatureAlgorithmDetails), signatureAlgorithmDetails[i].hash == hashFunc && same(sigAlgo.Algorithm, signatureAlgorithmDetails[i].oid))
 //@   modifies nothing
 //@   terminates
 
